@@ -76,6 +76,11 @@ def readUInt (n : Nat) (st : St) : R Nat :=
 def toSigned (bytes : Nat) (v : Nat) : Int :=
   if v ≥ 2 ^ (8 * bytes - 1) then (v : Int) - (2 : Int) ^ (8 * bytes) else v
 
+/-- IEEE 754 bit patterns that are neither NaN nor ±Inf (exponent not all ones): readField reports
+    the others as nil, JSON having no way to carry them -/
+def finite32 (bits : Nat) : Bool := (bits / 8388608) % 256 != 255
+def finite64 (bits : Nat) : Bool := (bits / 4503599627370496) % 2048 != 2047
+
 /-- readTimestamp: seconds whose year falls outside [0, 9999] (what Time.MarshalJSON accepts)
     are reported as the zero time -/
 def clampTime (sec : Int) : Int :=
@@ -142,11 +147,11 @@ mutual
         else if typ = 102 then  -- 'f'
           match readUInt 4 st with
           | .error e => .error e
-          | .ok (v, st) => .ok (.f32 v, st)
+          | .ok (v, st) => .ok (if finite32 v then .f32 v else .nil, st)
         else if typ = 100 then  -- 'd'
           match readUInt 8 st with
           | .error e => .error e
-          | .ok (v, st) => .ok (.f64 v, st)
+          | .ok (v, st) => .ok (if finite64 v then .f64 v else .nil, st)
         else if typ = 68 then   -- 'D'
           match readUInt 1 st with
           | .error e => .error e
